@@ -321,6 +321,8 @@ func main() {
 	pkgs := flag.String("pkgs", "", "comma separated package directories relative to repo")
 	adopt := flag.String("adopt", "", "comma separated importpath=dir=relTarget: copy an external package dir into repo/relTarget (instrumented) and redirect imports")
 	mapOut := flag.String("map", "", "where to write the overlay fragment (JSON)")
+	rebind := flag.String("rebind", "", "comma separated import=relTarget@pkg+pkg: bind an import to a mounted shim package in the listed package dirs only")
+	_ = flag.String("race", "", "reserved")
 	flag.Parse()
 	frag := map[string]string{}
 	extra := map[string]string{}
@@ -338,7 +340,30 @@ func main() {
 			jobs = append(jobs, job{filepath.Join(*repo, p), p})
 		}
 	}
+	rebinds := map[string]map[string]string{} // relDir -> import -> new path
+	if *rebind != "" {
+		for _, rb := range strings.Split(*rebind, ",") {
+			at := strings.Split(rb, "@")
+			kv := strings.Split(at[0], "=")
+			for _, pk := range strings.Split(at[1], "+") {
+				if rebinds[pk] == nil {
+					rebinds[pk] = map[string]string{}
+				}
+				rebinds[pk][kv[0]] = "github.com/IrineSistiana/mosdns/v5/" + kv[1]
+			}
+		}
+	}
 	for _, j := range jobs {
+		ex := extra
+		if rb := rebinds[j.relDir]; rb != nil {
+			ex = map[string]string{}
+			for k, v := range extra {
+				ex[k] = v
+			}
+			for k, v := range rb {
+				ex[k] = v
+			}
+		}
 		ents, err := os.ReadDir(j.srcDir)
 		if err != nil {
 			fmt.Fprintf(os.Stderr, "INFRA: instr: %v\n", err)
@@ -356,7 +381,7 @@ func main() {
 				}
 				continue
 			}
-			data, err := instrumentFile(filepath.Join(j.srcDir, name), extra)
+			data, err := instrumentFile(filepath.Join(j.srcDir, name), ex)
 			if err != nil {
 				fmt.Fprintf(os.Stderr, "INFRA: instr: %s: %v\n", name, err)
 				os.Exit(2)
